@@ -128,3 +128,9 @@ Definition fwd_ann (sh : list Z) (vals : list Z) (s0 fsn fsd : Z) (ch md : lab) 
   end.
 Definition check_run (m : mode) (t : thr) (bs : list batch) (got : list out) : bool :=
   eqb_list eqb_out (run m t true bs) got.
+
+(* ================================================================== added by the harness coverage audit *)
+(* status_cb = None: only what reaches valid_target is observable *)
+Definition out_fwd (o : out) : out := match o with OOut f _ => OOut f [] | o' => o' end.
+Definition check_run_fwd (m : mode) (t : thr) (bs : list batch) (got : list out) : bool :=
+  eqb_list eqb_out (map out_fwd (run m t true bs)) (map out_fwd got).
